@@ -51,13 +51,14 @@ def _shape(x):
 
 
 class Claim:
-    __slots__ = ('label', 'verdict', 'detail', 'model', 'choices')
+    __slots__ = ('label', 'verdict', 'detail', 'model', 'choices', 'alt')
 
     def __init__(self, label, verdict, detail=None, model=None):
         self.label = label
         self.verdict = verdict      # held | cand | inconclusive
         self.detail = detail
         self.model = model
+        self.alt = []               # further candidate models, tried if `model` does not replay
 
 
 class SymEx:
@@ -187,12 +188,62 @@ class SymEx:
                 return False
             self.claims.append(Claim(label, 'cand', detail, self._model(m)))
             return False
+        # the model may exploit the slack of the exp/log axiomatisation: refine at the
+        # model's arguments and ask again (each round adds true facts only)
+        res, m = self._refined(neg, m)
+        if res == 'unsat':
+            self.claims.append(Claim(label, 'held', 'after refinement'))
+            return True
+        alts = []
         if strong is not None:
-            r2, m2 = c._check(strong)
-            if r2 == 'sat':
-                m = m2
-        self.claims.append(Claim(label, 'cand', detail, self._model(m)))
+            try:
+                r2, m2 = c._check(strong)
+                if r2 == 'sat':
+                    res2, m2 = self._refined(strong, m2)
+                    if res2 == 'sat':
+                        alts.append(self._model(m))
+                        m, res = m2, 'sat'
+                    elif res2 == 'unknown':
+                        alts.append(self._model(m2))
+            except C.BudgetExceeded:
+                pass
+        cl = Claim(label, 'cand', detail, self._model(m))
+        cl.alt.extend(alts)
+        if res != 'sat':
+            # the solver's model may still sit in the slack of the exp/log axioms: also try
+            # an arbitrary input of this path on the real code (can only confirm a failure)
+            try:
+                r3, m3 = c._check()
+                if r3 == 'sat':
+                    cl.alt.append(self._model(m3))
+            except C.BudgetExceeded:
+                pass
+        self.claims.append(cl)
         return False
+
+    def _refined(self, query, m):
+        """Incremental linearisation around the models of `query`: ('sat', faithful model),
+        ('unsat', None) or ('unknown', last model)."""
+        c = self.c
+        for rnd in range(6):
+            try:
+                if not c.refine(m):
+                    return 'sat', m
+                if rnd == 0:
+                    # same inputs, transcendental atoms now pinned near their true values
+                    r, m2 = c._check(query, *c.pins(m))
+                    if r == 'sat':
+                        m = m2
+                        continue
+                r, m2 = c._check(query, portfolio=True)
+            except C.BudgetExceeded:
+                break
+            if r == 'unsat':
+                return 'unsat', None
+            if r != 'sat':
+                break
+            m = m2
+        return 'unknown', m
 
     def _guided(self, neg, tries=6):
         return self.c.guided(neg, tries=tries)
@@ -741,21 +792,25 @@ def run_case(h, case, twin, tier, seed, budget):
                 lab['inconclusive'] += 1
             else:
                 # candidate counterexample: replay on the real code
-                rep = concrete_run(h, cl.model, case, twin)
-                failed_labels = [l for l, _ in rep.failed]
-                reproduced = False
-                detail = None
-                if cl.label == 'no-exception':
-                    reproduced = rep.error is not None and rep.error != 'assumption'
-                    detail = rep.error
-                elif cl.label in failed_labels:
-                    reproduced = True
-                    detail = [d for l, d in rep.failed if l == cl.label][0]
-                elif rep.error is not None and rep.error != 'assumption':
-                    # the replay raised before reaching the claim: that is a failure of the
-                    # real code on this input as well
-                    reproduced = True
-                    detail = 'replay raised ' + rep.error
+                for cand_model in [cl.model] + list(getattr(cl, 'alt', None) or []):
+                    rep = concrete_run(h, cand_model, case, twin)
+                    failed_labels = [l for l, _ in rep.failed]
+                    reproduced = False
+                    detail = None
+                    if cl.label == 'no-exception':
+                        reproduced = rep.error is not None and rep.error != 'assumption'
+                        detail = rep.error
+                    elif cl.label in failed_labels:
+                        reproduced = True
+                        detail = [d for l, d in rep.failed if l == cl.label][0]
+                    elif rep.error is not None and rep.error != 'assumption':
+                        # the replay raised before reaching the claim: that is a failure of
+                        # the real code on this input as well
+                        reproduced = True
+                        detail = 'replay raised ' + rep.error
+                    if reproduced:
+                        cl.model = cand_model
+                        break
                 if reproduced:
                     lab['violated'] += 1
                     out['violations'].append({'label': cl.label, 'model': cl.model,
